@@ -11,8 +11,30 @@ def nontrivial(d, t, r):
     return r['sizes'][0] >= 2
 
 
+def offset_port_ids(tier, seed):
+    """an endpoint `xy_id_offset` written as a mapping that also carries a `port_id` (accepted; the coordinate moves by
+    (x, y), the port id of an identity stays 0): whatever is emitted must fit the emitted fields.  The model has no
+    descriptor offsets: these cases are decided by the checker on the real output alone."""
+    import json
+    import random
+    rng = random.Random(seed + 77)
+    out = []
+    for (m, n) in ((2, 2), (3, 1)):
+        for pid_ in (2, 3):
+            d, t = families.mesh(rng, m, n, "XY", rng.random() < 0.3, sides=("W",))
+            if d is None:
+                continue
+            d = json.loads(json.dumps(d))
+            side = [e for e in d["endpoints"] if e["name"] != "cluster"]
+            if not side:
+                continue
+            side[0]["xy_id_offset"] = {"x": 0, "y": 0, "port_id": pid_}
+            out.append((d, dict(t, topo="xy-offset-port-id", model="unmodelled", port_id=pid_)))
+    return out
+
+
 def run(tier, seed, rep, replay=None):
-    netprops.standard_run(ID, tier, seed, rep, replay, ALGOS, nontrivial, extra_cases=lambda tier, seed: families.xy_suite(tier, seed) + families.name_collision_suite(tier, seed) + [(d, t) for d, t in families.conflict_suite(tier, seed) if t.get('defect') == 'xy-same-coordinate'], rule=
+    netprops.standard_run(ID, tier, seed, rep, replay, ALGOS, nontrivial, extra_cases=lambda tier, seed: families.xy_suite(tier, seed) + offset_port_ids(tier, seed) + families.name_collision_suite(tier, seed) + [(d, t) for d, t in families.conflict_suite(tier, seed) if t.get('defect') == 'xy-same-coordinate'], rule=
                           "families star/mesh/mesh_plus/tree/custom x algorithms " + str(ALGOS) + " x axi/narrow-wide, "
                           "exhaustive declaration-order permutations for small stars, seeded random otherwise; "
                           "plus XY arrays without auto-connection in which two endpoints would get one coordinate (must be rejected); "
